@@ -133,8 +133,30 @@ def classifier_hits(res, prop, cid, n, example):
     res.violation('unlisted-class', {'classifier': cid, 'cases': n, 'example': example})
 
 # ---------------------------------------------------------------- differential helper
+class CorpusCase:
+    """A case kept verbatim from an earlier disagreement (minimised failures run first, in every tier)."""
+    def __init__(self, cid, body): self.cid = cid; self.body = body; self.meta = {'corpus': True}
+    def text(self): return 'case %s\n%s' % (self.cid, self.body)
+    def readable(self):
+        c = Case(self.cid); c.lines = ['case ' + self.cid] + [l for l in self.body.split('\n') if l and l != 'end']
+        return c.readable()
+
+def corpus_cases(prop):
+    path = os.path.join(core.ROOT, 'corpus', prop + '.txt')
+    if not os.path.exists(path): return []
+    out = []
+    for chunk in open(path).read().split('case corp')[1:]:
+        cid, body = chunk.split('\n', 1)
+        out.append(CorpusCase('corp' + cid.strip(), body))
+    return out
+
 def differential(res, cases, impl_bin=None, observe=core.default_observe, env=None, label='corr'):
     impl_bin = impl_bin or core.TLIMPL_DEBUG
+    if not getattr(res, 'corpus_done', False) and observe is core.default_observe and env is None:
+        res.corpus_done = True
+        cc = corpus_cases(res.prop)
+        res.cov['corpus_cases'] = len(cc)
+        cases = cc + list(cases)
     impl = core.run_side(impl_bin, cases, env=env, announce=True)
     model = core.run_side(core.TLMODEL, cases, env=env)
     ncmp, nskip, dis = core.compare(cases, impl, model, observe)
